@@ -141,6 +141,19 @@ pub(crate) fn checked_container_size(
     Ok(size)
 }
 
+/// Validates the element count of a list, set or map read from a stream, where
+/// the remaining input is unknown: only a negative count can be refused.
+#[inline]
+pub(crate) fn non_negative_container_size(size: i32) -> Result<usize, ThriftException> {
+    if size < 0 {
+        return Err(new_protocol_exception(
+            super::ProtocolExceptionKind::NegativeSize,
+            format!("negative container size {size}"),
+        ));
+    }
+    Ok(size as usize)
+}
+
 pub trait WriteExt {
     fn write_slice(&mut self, src: &[u8]);
     fn write_u8(&mut self, n: u8);
